@@ -8,7 +8,7 @@ import multiprocessing as mp
 REG = load_contracts()
 prop = sys.argv[1]
 fns = functions_for(prop, REG)
-with mp.get_context('fork').Pool(8) as pool:
+with mp.get_context('fork').Pool(8, maxtasksperchild=1) as pool:
     res = pool.map(worker, [(q, prop, 20000, False) for q in fns], chunksize=1)
 rows = []
 for r in res:
